@@ -230,6 +230,16 @@ pub fn eval(op: &str, a: &[&str]) -> Option<String> {
             let (ck, cn) = (count(&with_k, k), count(&neutral, k));
             if ck == cn { "ok".into() } else { format!("FAIL the reserved word {} appears {} times as a bare token, {} times when the program does not use it", k, ck, cn) }
         }
+        "c19.show" => {
+            let text = String::from_utf8(sx::unhex(a[1])).ok()?;
+            let c = match load_full(&text) { Ok(c) => c, Err(e) => return Some(format!("FAIL {}", e)) };
+            if a[0] == "rs.types" {
+                let cfg = rust::Config::new(Configs::from_str("").unwrap());
+                let (out, _) = rust::emit_bindgen(&cfg, &c.0, &c.1, &c.2);
+                return Some(format!("{}\n--methods--\n{}", out.type_defs, out.methods.iter().map(|m| format!("{} {:?} -> {:?} mode={}", m.name, m.args, m.rets, m.mode)).collect::<Vec<_>>().join("\n")).replace('\n', "\u{1}"));
+            }
+            compile_target(a[0], &c).replace('\n', "\u{1}")
+        }
         "p.c19.closed.js" => {
             // the JavaScript evaluates: every name it uses is declared before use or declared recursive first
             let env = env_from_sx(a[0]); let actor = actor_from(a[1]);
